@@ -321,7 +321,7 @@ func genC09(seed int64, tier string) *Scenario {
 	// completion at the end of an identifier prefix
 	sc.Ops = append(sc.Ops, Op{Kind: "req", Method: "completion", Path: "use.lua", Pos: &Pos{0, 2}})
 	sc.Ops = append(sc.Ops, Op{Kind: "req", Method: "documentSymbol", Path: "use.lua"})
-	sc.Ops = append(sc.Ops, Op{Kind: "req", Method: "workspaceSymbol", Arg: []string{"dup", "g1", "same", "Cls", "shared"}[r.Intn(5)]})
+	sc.Ops = append(sc.Ops, Op{Kind: "req", Method: "workspaceSymbol", Arg: []string{"dup", "g1", "same", "Cls", "shared", "", "k", "f"}[r.Intn(8)]})
 	other := sc.Files[r.Intn(len(sc.Files))].Path
 	sc.Ops = append(sc.Ops, Op{Kind: "req", Method: "documentSymbol", Path: other})
 
